@@ -17,7 +17,9 @@ RET: ExitKey = ("ret", None)
 
 
 def runs_callee(n: Node):
-    """The package callee(s) whose body executes at this step, or None."""
+    """The package callee(s) whose body executes at this step, or None (also None when the body is spliced into this CFG)."""
+    if n.inlined is not None:
+        return None
     if n.op == "await" and n.awaited is not None and n.awaited.kind == "pkg":
         return n.awaited
     if n.op == "call" and n.callee is not None and n.callee.kind == "pkg" and n.callee.targets and all(not t.is_async for t in n.callee.targets):
